@@ -2,3 +2,543 @@
    exactly the comma-joined expansion when it fits and a terminated prefix otherwise. *)
 From PV Require Import Base.DecimalFacts Hostlist.HLDefs Hostlist.HLFacts Hostlist.HLPrint.
 Local Open Scope N_scope.
+
+(* ================= list helpers ================= *)
+Lemma firstn_app_le {A} k (a x : list A) : (k <= length a)%nat -> firstn k (a ++ x) = firstn k a.
+Proof. intro H. rewrite firstn_app. replace (k - length a)%nat with O by lia. cbn [firstn]. apply app_nil_r. Qed.
+
+Lemma firstn_app_ge {A} n k (a x : list A) : length a = n -> firstn (n + k) (a ++ x) = a ++ firstn k x.
+Proof. intros <-. apply firstn_app_2. Qed.
+
+Lemma firstn_firstn_le {A} i j (l : list A) : (i <= j)%nat -> firstn i (firstn j l) = firstn i l.
+Proof. intro H. rewrite firstn_firstn. f_equal. lia. Qed.
+
+Lemma firstn_len_le {A} k (l : list A) : (k <= length l)%nat -> length (firstn k l) = k.
+Proof. apply firstn_length_le. Qed.
+
+(* ================= the buffer ================= *)
+Lemma overwrite_spec data : forall buf, (length data <= length buf)%nat ->
+  overwrite data buf = data ++ skipn (length data) buf.
+Proof.
+  induction data as [|d ds IH]; intros [|b bs] H; cbn [overwrite length skipn app] in *; try reflexivity; try lia.
+  f_equal. apply IH. lia.
+Qed.
+
+Lemma write_at_spec : forall off buf data, (off + length data <= length buf)%nat ->
+  write_at buf off data = firstn off buf ++ data ++ skipn (off + length data) buf.
+Proof.
+  induction off as [|o IH]; intros buf data H.
+  - destruct buf; cbn [write_at firstn app Nat.add]; apply overwrite_spec; exact H.
+  - destruct buf as [|b r]; cbn [length] in H; [lia|].
+    cbn [write_at firstn app Nat.add skipn]. f_equal. apply IH. lia.
+Qed.
+
+Lemma store_inv buf off data b : store buf off data = Ok b ->
+  (off + length data <= length buf)%nat /\
+  b = firstn off buf ++ data ++ skipn (off + length data) buf.
+Proof.
+  unfold store. destruct (off + length data <=? length buf)%nat eqn:E; [|discriminate].
+  apply Nat.leb_le in E. intro H. inversion H. split; [exact E|]. apply write_at_spec. exact E.
+Qed.
+
+Lemma store_ok buf off data : (off + length data <= length buf)%nat ->
+  store buf off data = Ok (write_at buf off data).
+Proof. intro H. unfold store. apply Nat.leb_le in H. rewrite H. reflexivity. Qed.
+
+Lemma store_length buf off data b : store buf off data = Ok b -> length b = length buf.
+Proof.
+  intro H. apply store_inv in H as [H ->].
+  rewrite !app_length, firstn_length, skipn_length. lia.
+Qed.
+
+Lemma store_firstn_lo buf off data b k : store buf off data = Ok b -> (k <= off)%nat ->
+  firstn k b = firstn k buf.
+Proof.
+  intros H Hk. apply store_inv in H as [H ->].
+  rewrite firstn_app_le by (rewrite firstn_length; lia). apply firstn_firstn_le. exact Hk.
+Qed.
+
+Lemma store_firstn_mid buf off data b k : store buf off data = Ok b -> (k <= length data)%nat ->
+  firstn (off + k) b = firstn off buf ++ firstn k data.
+Proof.
+  intros H Hk. apply store_inv in H as [H ->].
+  rewrite (firstn_app_ge off) by (rewrite firstn_length; lia). f_equal.
+  apply firstn_app_le. exact Hk.
+Qed.
+
+Lemma store_firstn_all buf off data b : store buf off data = Ok b ->
+  firstn (off + length data) b = firstn off buf ++ data.
+Proof. intro H. rewrite (store_firstn_mid _ _ _ _ _ H) by lia. rewrite firstn_all. reflexivity. Qed.
+
+Lemma store_In buf off data b x : store buf off data = Ok b -> In x data -> In x b.
+Proof.
+  intros H Hx. apply store_inv in H as [H ->]. apply in_or_app. right. apply in_or_app. left. exact Hx.
+Qed.
+
+(* ---- cstring ---- *)
+Lemma cstring_In b : In 0 b -> exists t, cstring b = Some t.
+Proof.
+  induction b as [|a r IH]; intro H; [destruct H|].
+  destruct a as [|p].
+  - exists []. reflexivity.
+  - destruct H as [H|H]; [discriminate|]. destruct (IH H) as [t Ht].
+    exists (N.pos p :: t). cbn [cstring]. rewrite Ht. reflexivity.
+Qed.
+
+Lemma cstring_app t rest : ~ In 0 t -> cstring (t ++ 0 :: rest) = Some t.
+Proof.
+  induction t as [|a t IH]; intro H; [reflexivity|].
+  cbn [app]. destruct a as [|p]; [exfalso; apply H; left; reflexivity|].
+  cbn [cstring]. rewrite IH; [reflexivity|]. intro Hin. apply H. right. exact Hin.
+Qed.
+
+Lemma cstring_firstn b t : ~ In 0 t -> firstn (length t + 1) b = t ++ [0] -> cstring b = Some t.
+Proof.
+  intros Ht H. rewrite <- (firstn_skipn (length t + 1) b), H, <- app_assoc. cbn [app].
+  apply cstring_app. exact Ht.
+Qed.
+
+(* ================= Hoare-style reasoning over [outcome] ================= *)
+Definition good {A} (P : A -> Prop) (o : outcome A) : Prop :=
+  match o with Ok a => P a | _ => False end.
+
+Lemma good_bind {A B} (P : A -> Prop) (Q : B -> Prop) x (f : A -> outcome B) :
+  good P x -> (forall a, P a -> good Q (f a)) -> good Q (bind x f).
+Proof. destruct x; cbn [good bind]; auto; tauto. Qed.
+
+Lemma good_weaken {A} (P Q : A -> Prop) o : good P o -> (forall a, P a -> Q a) -> good Q o.
+Proof. destruct o; cbn [good]; auto. Qed.
+
+Lemma store_good L buf off data : length buf = L -> (off + length data <= L)%nat ->
+  good (fun b => length b = L) (store buf off data).
+Proof.
+  intros HL H. rewrite store_ok by lia. cbn [good].
+  erewrite store_length; [exact HL|]. apply store_ok. lia.
+Qed.
+
+Lemma snprintf_good L buf off m text : length buf = L -> (off + m <= L)%nat ->
+  good (fun b => length b = L) (snprintf_at buf off m text).
+Proof.
+  intros HL H. destruct m as [|m']; cbn [snprintf_at good]; [exact HL|].
+  apply store_good; [exact HL|]. rewrite app_length, firstn_length. cbn [length]. lia.
+Qed.
+
+(* ================= ranged form: no store past n ================= *)
+Lemma numstr_good L buf off m r : length buf = L -> (off + m <= L)%nat ->
+  good (fun p => length (fst p) = L) (numstr buf off m r).
+Proof.
+  intros HL H. unfold numstr. destruct (single r); [exact HL|].
+  destruct m as [|m']; [exact HL|].
+  eapply good_bind; [apply snprintf_good; eassumption|].
+  intros buf1 H1. cbv beta.
+  destruct ((length (fmt (wid r) (lo r)) <? S m')%nat && (lo r <? hi r)) eqn:E; [|exact H1].
+  apply andb_true_iff in E as [E _]. apply Nat.ltb_lt in E.
+  eapply good_bind; [apply snprintf_good; [exact H1|lia]|].
+  intros buf2 H2. exact H2.
+Qed.
+
+Lemma gbl_loop_good L fuel : forall l buf off n bn len i,
+  length buf = L -> (off + n <= L)%nat -> (len <= n)%nat ->
+  good (fun p => length (fst (fst p)) = L) (gbl_loop fuel l buf off n bn len i).
+Proof.
+  induction fuel as [|f IH]; intros l buf off n bn len i HL Hn Hlen; cbn [gbl_loop]; [exact HL|].
+  destruct (nth_error l i) as [r|]; [|exact HL].
+  eapply good_bind; [apply (numstr_good L); [exact HL|lia]|].
+  intros [buf1 k] H1. cbn [fst] in H1.
+  destruct (n <=? len + k)%nat eqn:E; [exact H1|]. apply Nat.leb_gt in E.
+  eapply (good_bind (fun p => length (fst p) = L /\ (snd p <= n)%nat)).
+  - destruct bn.
+    + eapply good_bind; [apply (store_good L); [exact H1|cbn [length]; lia]|].
+      intros b Hb. cbn [good fst snd]. split; [exact Hb|lia].
+    + cbn [good fst snd]. split; [exact H1|lia].
+  - intros [buf2 len2] [H2 Hl2]. cbn [fst snd] in H2, Hl2.
+    destruct (nth_error l (S i)) as [r'|]; [|exact H2].
+    destruct (within_range r' r); [|exact H2].
+    apply IH; assumption.
+Qed.
+
+Lemma gbl_good L l buf off n start : length buf = L -> (off + n <= L)%nat ->
+  good (fun p => length (fst (fst p)) = L) (get_bracketed_list l buf off n start).
+Proof.
+  intros HL Hn. unfold get_bracketed_list.
+  destruct (nth_error l start) as [r|]; [|exact HL].
+  eapply good_bind; [apply (snprintf_good L); eassumption|].
+  intros buf0 H0. cbv beta.
+  destruct (n <? length (pfx r))%nat eqn:E0; [exact H0|]. apply Nat.ltb_ge in E0.
+  eapply (good_bind (fun p => length (fst p) = L /\ (snd p <= n)%nat)).
+  - destruct (bracket_needed l start && (length (pfx r) <? n)%nat) eqn:E1.
+    + apply andb_true_iff in E1 as [_ E1]. apply Nat.ltb_lt in E1.
+      eapply good_bind; [apply (store_good L); [exact H0|cbn [length]; lia]|].
+      intros b Hb. cbn [good fst snd]. split; [exact Hb|lia].
+    + cbn [good fst snd]. split; [exact H0|lia].
+  - intros [buf1 len1] [H1 Hl1]. cbn [fst snd] in H1, Hl1.
+    eapply good_bind; [apply (gbl_loop_good L); eassumption|].
+    intros [[buf2 len] i] H2. cbn [fst] in H2.
+    destruct (bracket_needed l start && (len <? n)%nat && (0 <? len)%nat) eqn:E2.
+    + apply andb_true_iff in E2 as [E2 E3]. apply andb_true_iff in E2 as [_ E2].
+      apply Nat.ltb_lt in E2. apply Nat.ltb_lt in E3.
+      eapply good_bind; [apply (store_good L); [exact H2|cbn [length]; lia]|].
+      intros b3 H3.
+      eapply good_bind; [apply (store_good L); [exact H3|cbn [length]; lia]|].
+      intros b4 H4. exact H4.
+    + destruct (n <=? len)%nat eqn:E3.
+      * destruct (0 <? n)%nat eqn:E4; [|exact H2]. apply Nat.ltb_lt in E4.
+        eapply good_bind; [apply (store_good L); [exact H2|cbn [length]; lia]|].
+        intros b Hb. exact Hb.
+      * apply Nat.leb_gt in E3.
+        eapply good_bind; [apply (store_good L); [exact H2|cbn [length]; lia]|].
+        intros b Hb. exact Hb.
+Qed.
+
+Lemma ranged_loop_good fuel : forall l buf n len i, length buf = n ->
+  good (fun p => length (fst p) = n) (ranged_loop fuel l buf n len i).
+Proof.
+  induction fuel as [|f IH]; intros l buf n len i HL; cbn [ranged_loop]; [exact HL|].
+  destruct ((i <? length l)%nat && (len <? n)%nat) eqn:E; [|exact HL].
+  apply andb_true_iff in E as [_ E]. apply Nat.ltb_lt in E.
+  eapply good_bind; [apply (gbl_good n); [exact HL|lia]|].
+  intros [[buf1 k] i'] H1. cbn [fst] in H1.
+  destruct ((0 <? len + k)%nat && (len + k <? n)%nat && (i' <? length l)%nat) eqn:E1.
+  - apply andb_true_iff in E1 as [E1 _]. apply andb_true_iff in E1 as [_ E1]. apply Nat.ltb_lt in E1.
+    eapply good_bind; [apply (store_good n); [exact H1|cbn [length]; lia]|].
+    intros b Hb. apply IH. exact Hb.
+  - apply IH. exact H1.
+Qed.
+
+Lemma ranged_string_good l buf :
+  good (fun p => length (fst p) = length buf /\ (buf <> [] -> In 0 (fst p))) (ranged_string l buf).
+Proof.
+  unfold ranged_string.
+  eapply good_bind; [apply ranged_loop_good; reflexivity|].
+  intros [buf1 len] H1. cbn [fst] in H1.
+  destruct (length buf <=? len)%nat eqn:E.
+  - destruct (0 <? length buf)%nat eqn:E0.
+    + apply Nat.ltb_lt in E0.
+      destruct (store buf1 (length buf - 1) [0]) as [b| |] eqn:Es.
+      * cbn [bind good fst]. split; [rewrite (store_length _ _ _ _ Es); exact H1|].
+        intros _. eapply store_In; [exact Es|left; reflexivity].
+      * pose proof (store_good (length buf) buf1 (length buf - 1) [0] H1) as G.
+        rewrite Es in G. apply G. cbn [length]. lia.
+      * pose proof (store_good (length buf) buf1 (length buf - 1) [0] H1) as G.
+        rewrite Es in G. apply G. cbn [length]. lia.
+    + apply Nat.ltb_ge in E0. cbn [good fst]. split; [exact H1|].
+      intro Hne. destruct buf; [congruence|cbn [length] in E0; lia].
+  - apply Nat.leb_gt in E.
+    destruct (store buf1 len [0]) as [b| |] eqn:Es.
+    + cbn [bind good fst]. split; [rewrite (store_length _ _ _ _ Es); exact H1|].
+      intros _. eapply store_In; [exact Es|left; reflexivity].
+    + pose proof (store_good (length buf) buf1 len [0] H1) as G.
+      rewrite Es in G. apply G. cbn [length]. lia.
+    + pose proof (store_good (length buf) buf1 len [0] H1) as G.
+      rewrite Es in G. apply G. cbn [length]. lia.
+Qed.
+
+Theorem ranged_no_fault : forall l buf, Forall hr_ok l ->
+  match ranged_string l buf with Fault _ => False | _ => True end.
+Proof.
+  intros l buf _. pose proof (ranged_string_good l buf) as G.
+  destruct (ranged_string l buf); cbn [good] in G; auto.
+Qed.
+
+Theorem ranged_terminated : forall l buf b r, Forall hr_ok l -> buf <> [] ->
+  ranged_string l buf = Ok (b, r) -> length b = length buf /\ exists t, cstring b = Some t.
+Proof.
+  intros l buf b r _ Hne H. pose proof (ranged_string_good l buf) as G.
+  rewrite H in G. cbn [good fst] in G. destruct G as [G1 G2]. split; [exact G1|].
+  apply cstring_In. apply G2. exact Hne.
+Qed.
+
+(* ================= expanded form: exact characterisation ================= *)
+Lemma store_ex buf off data : (off + length data <= length buf)%nat ->
+  exists b, store buf off data = Ok b /\ length b = length buf.
+Proof.
+  intro H. exists (write_at buf off data). pose proof (store_ok buf off data H) as E.
+  split; [exact E|]. eapply store_length; exact E.
+Qed.
+
+Lemma snprintf_ex buf off m text : (off + m <= length buf)%nat ->
+  exists b, snprintf_at buf off m text = Ok b /\ length b = length buf /\
+    (forall k, (k <= off)%nat -> firstn k b = firstn k buf) /\
+    (forall k, (k < m)%nat -> (k <= length text)%nat ->
+               firstn (off + k) b = firstn off buf ++ firstn k text) /\
+    (m = O -> b = buf).
+Proof.
+  intro H. destruct m as [|m']; cbn [snprintf_at].
+  - exists buf. repeat split; auto. intros; lia.
+  - destruct (store_ex buf off (firstn m' text ++ [0])) as (b & Es & Lb).
+    { rewrite app_length, firstn_length. cbn [length]. lia. }
+    exists b. split; [exact Es|]. split; [exact Lb|]. split; [|split].
+    + intros k Hk. eapply store_firstn_lo; eauto.
+    + intros k Hk1 Hk2. rewrite (store_firstn_mid _ _ _ _ k Es).
+      * f_equal. rewrite firstn_app_le by (rewrite firstn_length; lia). apply firstn_firstn_le. lia.
+      * rewrite app_length, firstn_length. cbn [length]. lia.
+    + discriminate.
+Qed.
+
+(* every name followed by a comma: what the C loops actually lay down *)
+Definition cat (l : list bytes) : bytes := flat_map (fun t => t ++ [44]) l.
+
+Lemma cat_app a b : cat (a ++ b) = cat a ++ cat b.
+Proof. apply flat_map_app. Qed.
+
+Lemma join_cat l : l <> [] -> join 44 l ++ [44] = cat l.
+Proof.
+  induction l as [|a r IH]; intro H; [congruence|].
+  destruct r as [|b r'].
+  - cbn [join cat flat_map]. rewrite app_nil_r. reflexivity.
+  - change (join 44 (a :: b :: r')) with (a ++ 44 :: join 44 (b :: r')).
+    change (cat (a :: b :: r')) with ((a ++ [44]) ++ cat (b :: r')).
+    rewrite <- IH by discriminate. rewrite <- !app_assoc. reflexivity.
+Qed.
+
+Lemma range_hosts_nonempty r : hr_ok r -> range_hosts r <> [].
+Proof.
+  unfold hr_ok, range_hosts. destruct (single r); [discriminate|]. intros [H1 H2].
+  destruct (N.to_nat (hi r + 1 - lo r)) eqn:E; [lia|]. cbn [count_up map]. discriminate.
+Qed.
+
+Lemma expand_cons r l : expand (r :: l) = range_hosts r ++ expand l.
+Proof. reflexivity. Qed.
+
+Lemma to_string_loop_spec r : forall nums buf off n len,
+  (off + n <= length buf)%nat -> (len <= n)%nat -> (0 < n)%nat -> (nums <> [] \/ (0 < len)%nat) ->
+  exists b ret, to_string_loop nums r buf off n len = Ok (b, ret) /\ length b = length buf /\
+    (forall W, W = cat (map (fun x => pfx r ++ fmt (wid r) x) nums) ->
+     ((len + length W <= n)%nat -> ret = Some (len + length W - 1)%nat /\
+        firstn (off + len + length W - 1) b
+        = firstn (off + len + length W - 1) (firstn (off + len) buf ++ W)) /\
+     ((n < len + length W)%nat -> ret = None /\
+        firstn (off + n - 1) b = firstn (off + n - 1) (firstn (off + len) buf ++ W))).
+Proof.
+  induction nums as [|x rest IH]; intros buf off n len Hb Hl Hn Hne.
+  - destruct Hne as [Hne|Hne]; [congruence|]. cbn [to_string_loop].
+    destruct (store_ex buf (off + len - 1) [0]) as (b & Es & Lb); [cbn [length]; lia|].
+    rewrite Es. cbn [bind]. exists b, (Some (len - 1)%nat).
+    split; [reflexivity|]. split; [exact Lb|]. intros W ->. cbn [map cat flat_map length]. split.
+    + intros _. split; [f_equal; lia|]. rewrite app_nil_r.
+      replace (off + len + 0 - 1)%nat with (off + len - 1)%nat by lia.
+      rewrite (store_firstn_lo _ _ _ _ (off + len - 1)%nat Es) by lia.
+      symmetry. apply firstn_firstn_le. lia.
+    + intro; lia.
+  - cbn [to_string_loop]. set (t := pfx r ++ fmt (wid r) x).
+    destruct (snprintf_ex buf (off + len) (n - len) t) as (buf1 & E1 & L1 & Hlo & Hmid & Hz); [lia|].
+    rewrite E1. cbn [bind].
+    destruct (n - len <=? length t)%nat eqn:E.
+    + apply Nat.leb_le in E.
+      destruct (store_ex buf1 (off + n - 1) [0]) as (b & Es & Lb); [cbn [length]; lia|].
+      rewrite Es. cbn [bind]. exists b, None. split; [reflexivity|]. split; [lia|].
+      intros W ->. cbn [map cat flat_map]. fold t. fold (cat (map (fun x => pfx r ++ fmt (wid r) x) rest)).
+      set (W' := cat (map (fun x => pfx r ++ fmt (wid r) x) rest)).
+      split; [rewrite !app_length; cbn [length]; lia|].
+      intros _. split; [reflexivity|].
+      rewrite (store_firstn_lo _ _ _ _ (off + n - 1)%nat Es) by lia.
+      destruct (n - len)%nat as [|m'] eqn:Em.
+      * rewrite (Hz eq_refl).
+        rewrite firstn_app_le by (rewrite firstn_length; lia).
+        symmetry. apply firstn_firstn_le. lia.
+      * replace (off + n - 1)%nat with ((off + len) + m')%nat by lia.
+        rewrite Hmid by lia.
+        rewrite (firstn_app_ge (off + len)) by (rewrite firstn_length; lia). f_equal.
+        rewrite <- app_assoc. symmetry. apply firstn_app_le. lia.
+    + apply Nat.leb_gt in E.
+      destruct (store_ex buf1 (off + (len + length t)) [44]) as (b2 & Es & L2); [cbn [length]; lia|].
+      rewrite Es. cbn [bind].
+      destruct (IH b2 off n (S (len + length t))) as (b & ret & E3 & L3 & Hspec); try lia.
+      exists b, ret. split; [exact E3|]. split; [lia|].
+      intros W ->. cbn [map cat flat_map]. fold t. fold (cat (map (fun x => pfx r ++ fmt (wid r) x) rest)).
+      set (W' := cat (map (fun x => pfx r ++ fmt (wid r) x) rest)).
+      specialize (Hspec W' eq_refl).
+      assert (HP : firstn (off + S (len + length t)) b2 = firstn (off + len) buf ++ t ++ [44]).
+      { replace (off + S (len + length t))%nat with ((off + (len + length t)) + length [44%N])%nat
+          by (cbn [length]; lia).
+        rewrite (store_firstn_all _ _ _ _ Es).
+        replace (off + (len + length t))%nat with ((off + len) + length t)%nat by lia.
+        rewrite Hmid by lia. rewrite firstn_all, <- app_assoc. reflexivity. }
+      rewrite HP in Hspec.
+      replace ((firstn (off + len) buf ++ t ++ [44]) ++ W')
+        with (firstn (off + len) buf ++ (t ++ [44]) ++ W') in Hspec
+        by (rewrite <- !app_assoc; reflexivity).
+      assert (HL : (len + length ((t ++ [44%N]) ++ W') = S (len + length t) + length W')%nat).
+      { rewrite !app_length. cbn [length]. lia. }
+      destruct Hspec as [Ha Hc]. split.
+      * intro H. destruct Ha as [Ha1 Ha2]; [lia|]. split; [rewrite Ha1; f_equal; lia|].
+        replace (off + len + length ((t ++ [44%N]) ++ W') - 1)%nat
+          with (off + S (len + length t) + length W' - 1)%nat by lia.
+        exact Ha2.
+      * intro H. apply Hc. lia.
+Qed.
+
+Lemma to_string_spec r buf off m : hr_ok r -> (off + m <= length buf)%nat ->
+  exists b ret, to_string r buf off m = Ok (b, ret) /\ length b = length buf /\
+   (forall J, J = join 44 (range_hosts r) ->
+    ((length J < m)%nat -> ret = Some (length J) /\
+        firstn (off + length J) b = firstn off buf ++ J) /\
+    ((m <= length J)%nat -> match ret with None => True | Some k => (m <= k)%nat end /\
+        firstn (off + m - 1) b = firstn (off + m - 1) (firstn off buf ++ J))).
+Proof.
+  intros Hr Hb. unfold to_string. destruct m as [|m'].
+  - exists buf, (Some O). split; [reflexivity|]. split; [reflexivity|]. intros J _. split; [lia|].
+    intros _. split; [lia|]. rewrite firstn_app_le by (rewrite firstn_length; lia).
+    symmetry. apply firstn_firstn_le. lia.
+  - destruct (single r) eqn:Sr.
+    + destruct (snprintf_ex buf off (S m') (pfx r) Hb) as (b & Es & Lb & Hlo & Hmid & _).
+      rewrite Es. cbn [bind]. exists b, (Some (length (pfx r))).
+      split; [reflexivity|]. split; [exact Lb|].
+      intros J ->. unfold range_hosts. rewrite Sr. cbn [join]. split.
+      * intros HJ. split; [reflexivity|]. rewrite Hmid by lia. rewrite firstn_all. reflexivity.
+      * intros HJ. split; [exact HJ|]. replace (off + S m' - 1)%nat with (off + m')%nat by lia.
+        rewrite Hmid by lia. rewrite (firstn_app_ge off) by (rewrite firstn_length; lia). reflexivity.
+    + pose proof (range_hosts_nonempty r Hr) as Hne.
+      unfold range_hosts in *. rewrite Sr in *.
+      set (nums := count_up (N.to_nat (hi r + 1 - lo r)) (lo r)) in *.
+      destruct (to_string_loop_spec r nums buf off (S m') O) as (b & ret & E & Lb & Hspec); try lia.
+      { left. intro Hn. apply Hne. rewrite Hn. reflexivity. }
+      exists b, ret. split; [exact E|]. split; [exact Lb|]. intros J ->.
+      specialize (Hspec _ eq_refl). rewrite <- join_cat in Hspec by exact Hne.
+      set (J := join 44 (map (fun n => pfx r ++ fmt (wid r) n) nums)) in *.
+      rewrite Nat.add_0_r in Hspec. rewrite app_length in Hspec. cbn [length Nat.add] in Hspec.
+      destruct Hspec as [Ha Hc]. split.
+      * intro HJ. destruct Ha as [Ha1 Ha2]; [lia|]. split; [rewrite Ha1; f_equal; lia|].
+        replace (off + (length J + 1) - 1)%nat with (off + length J)%nat in Ha2 by lia.
+        rewrite Ha2. rewrite (firstn_app_ge off) by (rewrite firstn_length; lia). f_equal.
+        rewrite firstn_app_le by lia. apply firstn_all.
+      * intro HJ. destruct Hc as [Hc1 Hc2]; [lia|]. rewrite Hc1. split; [exact I|].
+        rewrite Hc2. rewrite app_assoc. apply firstn_app_le.
+        rewrite app_length, firstn_length. lia.
+Qed.
+
+Lemma deranged_loop_spec : forall l buf n len,
+  Forall hr_ok l -> length buf = n -> (len <= n)%nat ->
+  exists b len' tr, deranged_loop l buf n len = Ok (b, len', tr) /\ length b = n /\
+   (forall F, F = firstn len buf ++ cat (expand l) ->
+     ((length F <= n)%nat -> len' = length F /\ tr = false /\ firstn (length F) b = F) /\
+     ((n < length F)%nat -> len' = n /\ tr = true /\ firstn (n - 1) b = firstn (n - 1) F)).
+Proof.
+  induction l as [|r rest IH]; intros buf n len Hok Hn Hlen.
+  - cbn [deranged_loop]. exists buf, len, false. split; [reflexivity|]. split; [exact Hn|].
+    intros F ->. cbn [expand flat_map cat]. rewrite app_nil_r, firstn_length. split.
+    + intros _. split; [lia|]. split; [reflexivity|]. rewrite Nat.min_l by lia. reflexivity.
+    + intro H. lia.
+  - pose proof (Forall_inv Hok) as Hr. pose proof (Forall_inv_tail Hok) as Hrest. cbn [deranged_loop].
+    destruct (to_string_spec r buf len (n - len)) as (b1 & ret & E & L1 & Hspec); [assumption|lia|].
+    rewrite E. cbn [bind]. specialize (Hspec _ eq_refl) as [Ha Hc].
+    set (J := join 44 (range_hosts r)) in *.
+    assert (HF : cat (expand (r :: rest)) = J ++ [44] ++ cat (expand rest)).
+    { rewrite expand_cons, cat_app, <- join_cat by (apply range_hosts_nonempty; exact Hr).
+      rewrite <- app_assoc. reflexivity. }
+    destruct (Nat.ltb_spec (length J) (n - len)) as [HJ|HJ].
+    + destruct (Ha HJ) as [-> Hf].
+      destruct (n - len <=? length J)%nat eqn:E2; [apply Nat.leb_le in E2; lia|].
+      destruct (store_ex b1 (len + length J) [44]) as (b2 & Es & L2); [cbn [length]; lia|].
+      rewrite Es. cbn [bind].
+      destruct (IH b2 n (S (len + length J))) as (b & len' & tr & E3 & L3 & Hspec3); [assumption|lia|lia|].
+      exists b, len', tr. split; [exact E3|]. split; [exact L3|]. intros F ->.
+      assert (HP : firstn (S (len + length J)) b2 = firstn len buf ++ J ++ [44]).
+      { replace (S (len + length J)) with ((len + length J) + length [44%N])%nat by (cbn [length]; lia).
+        rewrite (store_firstn_all _ _ _ _ Es), Hf, <- app_assoc. reflexivity. }
+      specialize (Hspec3 _ eq_refl). rewrite HP in Hspec3. rewrite HF.
+      replace (firstn len buf ++ J ++ [44] ++ cat (expand rest))
+        with ((firstn len buf ++ J ++ [44]) ++ cat (expand rest)) by (rewrite <- !app_assoc; reflexivity).
+      exact Hspec3.
+    + destruct (Hc HJ) as [Hret Hf].
+      destruct ret as [k|];
+        [destruct (n - len <=? k)%nat eqn:E2; [|apply Nat.leb_gt in E2; lia]|];
+        (exists b1, n, true; split; [reflexivity|]; split; [lia|]; intros F ->; rewrite HF; split;
+         [ intro HH; rewrite !app_length, firstn_length in HH; cbn [length] in HH; lia
+         | intros _; split; [reflexivity|]; split; [reflexivity|];
+           replace (len + (n - len) - 1)%nat with (n - 1)%nat in Hf by lia; rewrite Hf;
+           rewrite (app_assoc (firstn len buf) J); symmetry; apply firstn_app_le;
+           rewrite app_length, firstn_length; lia ]).
+Qed.
+
+Lemma deranged_string_spec l buf : Forall hr_ok l -> buf <> [] ->
+  exists b ret, deranged_string l buf = Ok (b, ret) /\ length b = length buf /\
+   (forall T, T = join 44 (expand l) ->
+    ((length T < length buf)%nat -> ret = Some (length T) /\ firstn (length T + 1) b = T ++ [0]) /\
+    ((length buf <= length T)%nat -> ret = None /\
+        firstn (length buf - 1 + 1) b = firstn (length buf - 1) T ++ [0])).
+Proof.
+  intros Hok Hne. unfold deranged_string.
+  assert (Hn : (0 < length buf)%nat) by (destruct buf; [congruence|cbn [length]; lia]).
+  set (n := length buf) in *.
+  destruct (deranged_loop_spec l buf n O Hok eq_refl) as (b1 & len' & tr & E & L1 & Hspec); [lia|].
+  rewrite E. cbn [bind]. specialize (Hspec _ eq_refl). cbn [firstn app] in Hspec.
+  destruct Hspec as [Ha Hc].
+  assert (Hpos : match len' with O => O | S k => k end = (len' - 1)%nat) by (destruct len'; lia).
+  rewrite Hpos. clear Hpos.
+  assert (Hlen' : (len' <= n)%nat).
+  { destruct (le_lt_dec (length (cat (expand l))) n) as [H|H]; [apply Ha in H|apply Hc in H]; lia. }
+  destruct (store_ex b1 (len' - 1) [0]) as (b & Es & Lb); [cbn [length]; lia|].
+  rewrite Es. cbn [bind].
+  exists b, (if tr || (len' - 1 =? n)%nat then None else Some (len' - 1)%nat).
+  split; [destruct (tr || (len' - 1 =? n)%nat); reflexivity|]. split; [lia|].
+  intros T ->. destruct (expand l) as [|a x] eqn:Ex.
+  - cbn [join cat flat_map length] in *. split; [|lia].
+    intros _. destruct Ha as (-> & -> & _); [lia|]. cbn [Nat.sub orb] in *.
+    destruct (Nat.eqb_spec 0 n) as [H0|_]; [lia|]. split; [reflexivity|].
+    change (0 + 1)%nat with (0 + length [0%N])%nat.
+    rewrite (store_firstn_all _ _ _ _ Es). reflexivity.
+  - assert (HF : cat (a :: x) = join 44 (a :: x) ++ [44]) by (symmetry; apply join_cat; discriminate).
+    rewrite HF in *. set (T := join 44 (a :: x)) in *.
+    rewrite app_length in Ha, Hc. cbn [length] in Ha, Hc. split.
+    + intro HT. destruct Ha as (-> & -> & Hf); [lia|]. cbn [orb].
+      replace (length T + 1 - 1)%nat with (length T) in * by lia.
+      destruct (Nat.eqb_spec (length T) n) as [H0|_]; [lia|]. split; [reflexivity|].
+      change (length T + 1)%nat with (length T + length [0%N])%nat.
+      rewrite (store_firstn_all _ _ _ _ Es). f_equal.
+      rewrite <- (firstn_firstn_le (length T) (length T + 1)) by lia. rewrite Hf.
+      rewrite firstn_app_le by lia. apply firstn_all.
+    + intro HT. destruct Hc as (-> & -> & Hf); [lia|]. cbn [orb]. split; [reflexivity|].
+      change (n - 1 + 1)%nat with (n - 1 + length [0%N])%nat.
+      rewrite (store_firstn_all _ _ _ _ Es). f_equal.
+      rewrite Hf. apply firstn_app_le. lia.
+Qed.
+
+Lemma no_nul_join names : Forall (fun name => ~ In 0 name) names -> ~ In 0 (join 44 names).
+Proof.
+  induction 1 as [|a r Ha Hr IH]; [auto|]. destruct r as [|b r']; [exact Ha|].
+  change (join 44 (a :: b :: r')) with (a ++ 44 :: join 44 (b :: r')).
+  intro Hin. apply in_app_or in Hin as [Hin|[Hin|Hin]]; [auto|discriminate|auto].
+Qed.
+
+Lemma In_firstn {A} (x : A) k l : In x (firstn k l) -> In x l.
+Proof. intro H. rewrite <- (firstn_skipn k l). apply in_or_app. left. exact H. Qed.
+
+Theorem deranged_no_fault : forall l buf, Forall hr_ok l -> buf <> [] ->
+  match deranged_string l buf with Fault _ => False | _ => True end.
+Proof.
+  intros l buf Hok Hne. destruct (deranged_string_spec l buf Hok Hne) as (b & ret & E & _).
+  rewrite E. exact I.
+Qed.
+
+Theorem deranged_fit : forall l buf, Forall hr_ok l ->
+  Forall (fun name => ~ In 0 name) (expand l) -> buf <> [] ->
+  (length (join 44 (expand l)) < length buf)%nat ->
+  exists b, deranged_string l buf = Ok (b, Some (length (join 44 (expand l)))) /\
+            cstring b = Some (join 44 (expand l)).
+Proof.
+  intros l buf Hok Hnul Hne Hlen.
+  destruct (deranged_string_spec l buf Hok Hne) as (b & ret & E & Lb & Hspec).
+  destruct (Hspec _ eq_refl) as [Ha _]. destruct (Ha Hlen) as [-> Hf].
+  exists b. split; [exact E|]. apply cstring_firstn; [apply no_nul_join; exact Hnul|exact Hf].
+Qed.
+
+Theorem deranged_truncation : forall l buf, Forall hr_ok l ->
+  Forall (fun name => ~ In 0 name) (expand l) -> buf <> [] ->
+  (length buf <= length (join 44 (expand l)))%nat ->
+  exists b t, deranged_string l buf = Ok (b, None) /\ cstring b = Some t /\
+              is_prefix t (join 44 (expand l)) = true /\ (length t < length buf)%nat.
+Proof.
+  intros l buf Hok Hnul Hne Hlen.
+  assert (Hn : (0 < length buf)%nat) by (destruct buf; [congruence|cbn [length]; lia]).
+  destruct (deranged_string_spec l buf Hok Hne) as (b & ret & E & Lb & Hspec).
+  destruct (Hspec _ eq_refl) as [_ Hc]. destruct (Hc Hlen) as [-> Hf].
+  set (T := join 44 (expand l)) in *.
+  assert (Lt : length (firstn (length buf - 1) T) = (length buf - 1)%nat) by (apply firstn_length_le; lia).
+  exists b, (firstn (length buf - 1) T). split; [exact E|]. split; [|split].
+  - apply cstring_firstn.
+    + intro Hin. apply In_firstn in Hin. revert Hin. apply no_nul_join. exact Hnul.
+    + rewrite Lt. exact Hf.
+  - apply is_prefix_spec. exists (skipn (length buf - 1) T). symmetry. apply firstn_skipn.
+  - rewrite Lt. lia.
+Qed.
